@@ -265,6 +265,7 @@ func (db *DB) WaitOnTasks() error {
 }
 
 func (db *DB) rotateMemtable() {
+	verifhook.Point("dkv.rotate", db)
 	// Immediately replace the active table so that writes can continue.
 	db.mtables.Rotate()
 	// Segment the WAL so that obsolete entries can be dropped once the
@@ -302,6 +303,7 @@ func (db *DB) rotateMemtable() {
 					return err
 				}
 				if cs == nil {
+					verifhook.Point("dkv.compact.idle", db)
 					return nil
 				}
 
